@@ -14,6 +14,7 @@ import (
 	"io"
 	"os"
 	"path/filepath"
+	"strconv"
 	"sync"
 
 	"github.com/cloudwego/hertz/pkg/app"
@@ -38,6 +39,7 @@ type Case struct {
 	Rawsink string `json:"rawsink"`
 	// signature fields of known findings, computed by the generator specification and echoed unchanged
 	EmptyTrailer string `json:"emptytrailer"`
+	ConnConflict string `json:"connconflict"`
 }
 
 // memWriter is a network.Writer collecting everything written.
@@ -71,6 +73,15 @@ type args [][]int
 
 func (a args) b(i int) []byte { return bs(a[i]) }
 func (a args) s(i int) string { return string(bs(a[i])) }
+
+// n decodes a decimal integer argument (role "d" of the entry-point table).
+func (a args) n(i int) int {
+	v, err := strconv.Atoi(a.s(i))
+	if err != nil {
+		fatal("integer argument expected: " + err.Error())
+	}
+	return v
+}
 
 // reqCall executes one entry point of the request side. Returns false for an unknown entry.
 func reqCall(r *protocol.Request, e string, a args) bool {
@@ -118,6 +129,12 @@ func reqCall(r *protocol.Request, e string, a args) bool {
 		r.SetBasicAuth(a.s(0), a.s(1))
 	case "Request.URI.SetUsername":
 		r.URI().SetUsername(a.s(0))
+	case "ReqHeader.SetContentLength":
+		h.SetContentLength(a.n(0))
+	case "ReqHeader.SetConnectionClose":
+		h.SetConnectionClose(true)
+	case "Request.SetConnectionClose":
+		r.SetConnectionClose()
 	case "ReqHeader.SetCookie":
 		h.SetCookie(a.s(0), a.s(1))
 	case "Request.SetCookie":
@@ -189,6 +206,12 @@ func respCall(r *protocol.Response, e string, a args) bool {
 		h.SetServerBytes(a.b(0))
 	case "RespHeader.SetContentLengthBytes":
 		h.SetContentLengthBytes(a.b(0))
+	case "RespHeader.SetContentLength":
+		h.SetContentLength(a.n(0))
+	case "RespHeader.SetConnectionClose":
+		h.SetConnectionClose(true)
+	case "Response.SetConnectionClose":
+		r.SetConnectionClose()
 	case "RespHeader.SetCookie":
 		h.SetCookie(respCookie(a, false))
 	case "RespHeader.SetCookieBytes":
@@ -239,6 +262,8 @@ func ctxCall(c *app.RequestContext, e string, a args) bool {
 		c.Data(200, a.s(0), nil)
 	case "Ctx.RespTrailer.Set":
 		_ = c.Response.Header.Trailer().Set(a.s(0), a.s(1))
+	case "Ctx.SetConnectionClose":
+		c.SetConnectionClose()
 	default:
 		return false
 	}
@@ -264,7 +289,7 @@ func runCase(tr *vtrace.Writer, c *Case) {
 		calls[i] = vtrace.Rec{"e": cl.E, "a": a}
 	}
 	tr.Emit("Case", vtrace.Rec{"id": c.ID, "tgt": c.Tgt, "body": c.Body, "calls": calls, "rawsink": c.Rawsink,
-		"emptytrailer": c.EmptyTrailer})
+		"emptytrailer": c.EmptyTrailer, "connconflict": c.ConnConflict})
 	defer tr.Emit("End", nil)
 	defer func() {
 		if r := recover(); r != nil {
